@@ -107,6 +107,22 @@ impl<R: 'static> Selector<Pop<R>> for DynW<R> {
     }
 }
 
+/// a member that records being used: counts its calls and draws a word of its own before delegating
+pub struct UseProbe<R> {
+    inner: Sel<R>,
+    id: usize,
+}
+pub static PROBE_CALLS: [std::sync::atomic::AtomicU64; 64] = [const { std::sync::atomic::AtomicU64::new(0) }; 64];
+pub static PROBE_NEXT: std::sync::atomic::AtomicUsize = std::sync::atomic::AtomicUsize::new(0);
+impl<R: 'static> Selector<Pop<R>> for UseProbe<R> {
+    type Error = SelErr;
+    fn select<'p, G: rand::Rng + ?Sized>(&self, pop: &'p Pop<R>, rng: &mut G) -> Result<&'p Ind<R>, SelErr> {
+        PROBE_CALLS[self.id].fetch_add(1, std::sync::atomic::Ordering::SeqCst);
+        let _ = rng.next_u64();
+        self.inner.select(pop, rng)
+    }
+}
+
 pub trait Res: Ord + From<i64> + for<'a> Sum<&'a Self> + Send + Sync + 'static {}
 impl Res for Score<i64> {}
 impl Res for Error<i64> {}
@@ -155,6 +171,17 @@ pub fn build<R: Res>(t: &Tree) -> Option<Built<R>> {
         2 => Box::new(Random),
         3 => Box::new(Tournament::new(NonZeroUsize::new(l.get(1)?.usize()?)?)),
         4 => Box::new(Lexicase::new(l.get(1)?.usize()?)),
+        9 => {
+            // probes are numbered in the order they are met (preorder of the specification)
+            let id = PROBE_NEXT.fetch_add(1, std::sync::atomic::Ordering::SeqCst);
+            if id >= 64 {
+                return None;
+            }
+            match build::<R>(l.get(1)?)? {
+                Built::Sel(inner) => Box::new(UseProbe { inner, id }),
+                Built::Overflow(a, b) => return Some(Built::Overflow(a, b)),
+            }
+        }
         5 | 6 => match build_w::<R>(t)? {
             Ok(w) => Box::new(w),
             Err(WeightSumOverflow(a, b)) => return Some(Built::Overflow(a, b)),
@@ -231,10 +258,13 @@ fn run_pol<R: Res>(seed: u64, n: usize, pop: &Tree, spec: &Tree, shared_genomes:
             Some(EcIndividual::new(genome, TestResults::<R>::from(v)))
         })
         .collect::<Option<_>>()?;
+    use std::sync::atomic::Ordering::SeqCst;
+    PROBE_NEXT.store(0, SeqCst);
     let sel = match build::<R>(spec)? {
         Built::Sel(s) => s,
         Built::Overflow(x, y) => return Some(L(vec![tl![A(-10), a(a_i(x)), a(a_i(y))]])),
     };
+    let nprobes = PROBE_NEXT.load(SeqCst);
     // the SAME selector value is first used on other populations (other sizes): a selector carries no state
     // from call to call, so this must not matter for what follows
     let cases = population.first().map_or(1, |i: &EcIndividual<u32, TestResults<R>>| i.test_results.results.len());
@@ -248,6 +278,9 @@ fn run_pol<R: Res>(seed: u64, n: usize, pop: &Tree, spec: &Tree, shared_genomes:
     // seeds 0 / 1: the FIRST word of every selection is all-zero / all-one (an extreme draw), the rest of the
     // stream is ordinary (a constant stream would never leave the rejection loops of `rand`)
     let mut rng = ExtremeFirst { first: match seed { 0 => Some(0), 1 => Some(u64::MAX), _ => None }, armed: false, rest: Sm::new(seed) };
+    for c in PROBE_CALLS.iter() {
+        c.store(0, SeqCst);
+    }
     let mut hist: BTreeMap<i64, u64> = BTreeMap::new();
     for _ in 0..n {
         rng.armed = true;
@@ -257,7 +290,12 @@ fn run_pol<R: Res>(seed: u64, n: usize, pop: &Tree, spec: &Tree, shared_genomes:
         };
         *hist.entry(o).or_insert(0) += 1;
     }
-    Some(L(hist.into_iter().map(|(o, c)| tl![a(o), a(c)]).collect()))
+    let hist = L(hist.into_iter().map(|(o, c)| tl![a(o), a(c)]).collect());
+    if nprobes == 0 {
+        return Some(hist);
+    }
+    // with probes: [-50, histogram, calls of every probe]
+    Some(tl![A(-50), hist, L((0..nprobes).map(|i| a(PROBE_CALLS[i].load(SeqCst))).collect())])
 }
 fn a_i(x: u32) -> i64 {
     i64::from(x)
@@ -415,6 +453,11 @@ fn gen_c07(tier: &str, rng: &mut Sm) -> Gen {
             vec![vec![9, 0, 0], vec![0, 0, 10], vec![3, 3, 3], vec![0, 9, 0]],
             vec![vec![1, 2], vec![2, 1], vec![0, 3], vec![3, 1]],
             (0..5).map(|_| (0..3).map(|_| rng.range(0, 9)).collect()).collect(),
+            // individuals evaluated on DIFFERENT numbers of cases (sub-sampled / early-terminated evaluation, no
+            // cases at all): the total still decides
+            vec![vec![4], vec![1, 1], vec![9, 0, 0], vec![2, 2, 2, 2]],
+            vec![vec![], vec![3, 3], vec![7], vec![1, 1, 1]],
+            vec![vec![5, 5, 5], vec![20], vec![6, 6], vec![0, 0, 0, 1]],
         ] {
             let n = pop.len();
             for pol in [0i64, 1, 2, 3] {
@@ -429,7 +472,7 @@ fn gen_c07(tier: &str, rng: &mut Sm) -> Gen {
             }
         }
     }
-    g.meta("generator", format!("{reps} x populations of 1..{nmax} single-case individuals with and without ties, both polarities, separate and shared genomes; every tournament size 1..n; best and worst; populations of multi-case individuals whose per-case vectors read lexicographically disagree with their totals; selector values that served populations of other sizes before"));
+    g.meta("generator", format!("{reps} x populations of 1..{nmax} single-case individuals with and without ties, both polarities, separate and shared genomes; every tournament size 1..n; best and worst; populations of multi-case individuals whose per-case vectors read lexicographically disagree with their totals, and of individuals evaluated on different numbers of cases (incl. none); selector values that served populations of other sizes before"));
     g
 }
 
@@ -479,12 +522,13 @@ fn gen_c13(tier: &str, rng: &mut Sm) -> Gen {
     let pop: Vec<Vec<i64>> = vec![vec![3], vec![9], vec![1], vec![5], vec![7]];
     let small = [0i64, 1, 2, 3, 7];
     let big = [0i64, 1, 2147483648, 4294967294, 4294967295];
+    // every member is wrapped in a probe that records being used
     let marker = |i: usize| -> Tree {
-        match i % 3 {
+        tl![A(9), match i % 3 {
             0 => tl![A(0)],
             1 => tl![A(1)],
             _ => tl![A(2)],
-        }
+        }]
     };
     // deterministic degenerate weight vectors: all zero (the error must be reported, whatever the length
     // and the structure), and exactly one positive member at each position (it alone is used)
@@ -529,6 +573,11 @@ fn gen_c13(tier: &str, rng: &mut Sm) -> Gen {
         }
         g.inputs.push(case(rng, if r % 2 == 0 { draws } else { 500 }, 1, pop.clone(), chain));
     }
+    // large weights whose total is far from a power of two (a reduction of a 32-bit draw modulo the total, or
+    // single-precision arithmetic, would be visibly biased here), up to the largest total that fits
+    for ws in [vec![1i64 << 30, 1 << 31], vec![1 << 30, 1 << 30, 1 << 30], vec![1 << 31, (1 << 31) - 1], vec![3 << 30, 1, 1 << 29], vec![1, 4294967294]] {
+        fixed.push(ws);
+    }
     for ws in fixed.iter() {
         let leaves: Vec<Tree> = ws.iter().enumerate().map(|(i, w)| tl![A(5), a(*w), marker(i)]).collect();
         let mut left = leaves[0].clone();
@@ -543,7 +592,7 @@ fn gen_c13(tier: &str, rng: &mut Sm) -> Gen {
         for (i, w) in ws.iter().enumerate().rev() {
             d = tl![A(8), marker(i), a(*w), d];
         }
-        let n = if ws.iter().all(|w| *w == 0) { 200 } else { draws / 10 };
+        let n = if ws.iter().all(|w| *w == 0) { 200 } else if ws.iter().any(|w| *w > 1000) { draws } else { draws / 10 };
         // the same structures with an extreme (all-zero / all-one) first random word in every selection
         for extreme in [0i128, 1] {
             for spec in [left.clone(), right.clone(), d.clone()] {
@@ -556,6 +605,6 @@ fn gen_c13(tier: &str, rng: &mut Sm) -> Gen {
         }
         g.inputs.push(case(rng, n, 1, pop.clone(), d));
     }
-    g.meta("generator", "marker members (best / worst / random over a fixed 5-individual population); every all-zero weight vector and every single-positive weight vector of length 1..4 in all three structures; left-nested chains, right-nested chains and random trees of <= 5 weighted members, the dynamic list with the same weights; weights from {0,1,2,3,7} and u32 boundaries {0,1,2^31,2^32-2,2^32-1}");
+    g.meta("generator", "marker members (best / worst / random over a fixed 5-individual population), each wrapped in a probe that counts its uses; weights of 2^29..2^31 with totals far from a power of two; every all-zero weight vector and every single-positive weight vector of length 1..4 in all three structures; left-nested chains, right-nested chains and random trees of <= 5 weighted members, the dynamic list with the same weights; weights from {0,1,2,3,7} and u32 boundaries {0,1,2^31,2^32-2,2^32-1}");
     g
 }
